@@ -22,7 +22,65 @@ pub mod verif_hooks {
     /// injected failures so far
     pub static FIRED: AtomicU64 = AtomicU64::new(0);
 
+    // Per-thread variant of the same counters (storage operations run on the caller's thread), so
+    // that several independent fault runs can proceed in one process. `TL_CRASH`: abort the process
+    // at the armed position instead of returning an error (crash-point injection).
+    thread_local! {
+        static TL_FAIL_AFTER: std::cell::Cell<i64> = const { std::cell::Cell::new(-1) };
+        static TL_STICKY: std::cell::Cell<bool> = const { std::cell::Cell::new(false) };
+        static TL_CRASH: std::cell::Cell<bool> = const { std::cell::Cell::new(false) };
+        static TL_OPS: std::cell::Cell<u64> = const { std::cell::Cell::new(0) };
+        static TL_FIRED: std::cell::Cell<u64> = const { std::cell::Cell::new(0) };
+    }
+
+    pub fn tl_arm(fail_after: i64, sticky: bool, crash: bool) {
+        TL_FAIL_AFTER.with(|c| c.set(fail_after));
+        TL_STICKY.with(|c| c.set(sticky));
+        TL_CRASH.with(|c| c.set(crash));
+    }
+
+    pub fn tl_disarm() {
+        tl_arm(-1, false, false);
+    }
+
+    pub fn tl_reset() {
+        tl_disarm();
+        TL_OPS.with(|c| c.set(0));
+        TL_FIRED.with(|c| c.set(0));
+    }
+
+    pub fn tl_ops() -> u64 {
+        TL_OPS.with(|c| c.get())
+    }
+
+    pub fn tl_fired() -> u64 {
+        TL_FIRED.with(|c| c.get())
+    }
+
+    fn tl_should_fail() -> bool {
+        TL_OPS.with(|c| c.set(c.get() + 1));
+        let left = TL_FAIL_AFTER.with(|c| c.get());
+        if left < 0 {
+            return false;
+        }
+        if left == 0 {
+            if TL_CRASH.with(|c| c.get()) {
+                std::process::abort();
+            }
+            if !TL_STICKY.with(|c| c.get()) {
+                TL_FAIL_AFTER.with(|c| c.set(-1));
+            }
+            TL_FIRED.with(|c| c.set(c.get() + 1));
+            return true;
+        }
+        TL_FAIL_AFTER.with(|c| c.set(left - 1));
+        false
+    }
+
     pub fn should_fail() -> bool {
+        if tl_should_fail() {
+            return true;
+        }
         OPS.fetch_add(1, Ordering::SeqCst);
         let left = FAIL_AFTER.load(Ordering::SeqCst);
         if left < 0 {
